@@ -10,7 +10,8 @@ from ..common import Violation, Discard, call, bits_equal
 from ..hyp import drive
 from .. import estimators as E, gen, oracles as O, observe
 
-RULE = ('NCA / MLKR / LMNN on generated (X, y) (d <= 5, n <= ~30; y real-valued for MLKR) x init option x n_components x '
+RULE = ('NCA / MLKR / LMNN on generated (X, y) (d <= 5, n <= ~30, plus an LMNN shard with one class of 513..560 members; '
+        'y real-valued for MLKR) x init option x n_components x '
         'LMNN n_neighbors 1..3, regularization in (0.02,0.98), learn_rate, max_iter x Hypothesis evaluation points L in '
         'R^{k x d} (entries m*10^e, e in [-3,1], scaled by 1/std(X)) plus the optimiser\'s own start point, final point '
         'and (LMNN) every recorded iterate. The function handed to scipy.optimize.minimize (NCA, MLKR) / LMNN._loss_grad is '
@@ -44,6 +45,21 @@ def case_strategy(draw, name):
   if name == 'LMNN':
     c.update(n_neighbors=draw(st.integers(1, 3)), reg=draw(st.floats(0.02, 0.98, allow_nan=False)),
              learn_rate=10.0 ** draw(st.integers(-7, 3)))
+  return c
+
+
+@st.composite
+def large_case(draw):
+  """LMNN on several hundred points: one class above 512 members (the sizes at which a blocked / batched
+  impostor search would start to matter), small iteration budget."""
+  c = draw(case_strategy('LMNN'))
+  desc = dict(c['desc'])
+  nc = len(desc['sizes'])
+  sizes = [draw(st.integers(4, 24)) for _ in range(nc)]
+  sizes[draw(st.integers(0, nc - 1))] = draw(st.integers(513, 560))
+  desc['sizes'] = sizes
+  desc['sep'] = draw(st.sampled_from([0.0, 0.5, 1.0]))
+  c.update(desc=desc, large=True, max_iter=draw(st.sampled_from([2, 3, 4])), points=c['points'][:1])
   return c
 
 
@@ -140,7 +156,9 @@ def check_lmnn(case, stats, data):
     call('C10/LMNN/fit', est.fit, data.X, data.y)
   if not calls:
     raise Violation('C10/LMNN/no-objective-call', '_loss_grad never called')
-  T, gap = O.lmnn_targets(data.X, data.y, nn)
+  large = bool(case.get('large'))
+  value_grad = O.lmnn_value_grad_large if large else O.lmnn_value_grad
+  T, gap = (O.lmnn_targets_large if large else O.lmnn_targets)(data.X, data.y, nn)
   args0 = calls[0][0]
   Xl, L_first, dfG, kl, regl, tn, label_inds = args0
   if gap > 1e-9:
@@ -154,7 +172,7 @@ def check_lmnn(case, stats, data):
   yl = data.y
 
   def compare(L, lib_obj, lib_grad, label):
-    ov, og, kink, na, ni, mag = O.lmnn_value_grad(L, data.X, yl, T, reg)
+    ov, og, kink, na, ni, mag = value_grad(L, data.X, yl, T, reg)
     if not close(float(lib_obj), ov, 1e-8 * max(mag, 1e-300)):
       raise Violation('C10/LMNN/value/' + label, 'library %r vs documented objective %r (reg=%r, k=%d)' % (float(lib_obj), ov, reg, nn))
     gs = max(np.abs(og).max(), 1e-300)
@@ -163,13 +181,14 @@ def check_lmnn(case, stats, data):
     return ov, kink, na, ni, gs, mag
 
   objs = []
-  step = max(1, len(calls) // 6)
+  step = max(1, len(calls) // (2 if large else 6))
   for ci, (a, kw, res) in enumerate(calls):
     if ci % step and ci != len(calls) - 1:
       continue
     ov, kink, na, ni, gs, mag = compare(a[1], res[1], res[0], 'iterate')
     stats.case(dict(case=case, iterate=ci), (kk < d or case['init'] != 'auto') and na > 0 and ni > 0,
-               ['LMNN', 'point:iterate', 'init:' + case['init'], 'lowrank' if kk < d else 'fullrank'])
+               ['LMNN', 'point:iterate', 'init:' + case['init'], 'lowrank' if kk < d else 'fullrank'] +
+               (['large:n=%d+' % (data.n // 100 * 100)] if large else []))
   sx = float(data.X.std()) or 1.0
   for p in case['points']:
     L = np.array(p) / sx
@@ -177,15 +196,15 @@ def check_lmnn(case, stats, data):
     ov, kink, na, ni, gs, mag = compare(L, obj, G2, 'generated')
     if tot != na:
       raise Violation('C10/LMNN/active-count', 'library counts %d active constraints, documented hinge has %d' % (tot, na))
-    if kink > 1e-5 * max(1.0, mag / max(na + ni, 1)):
+    if kink > 1e-5 * max(1.0, mag / max(na + ni, 1)) and not large:
       h = 1e-6 * max(np.abs(L).max(), 1e-3)
       idxs = list(np.ndindex(kk, d))[:: max(1, (kk * d) // 3)]
       for idx in idxs:
         Lp, Lm = L.copy(), L.copy()
         Lp[idx] += h
         Lm[idx] -= h
-        fp = O.lmnn_value_grad(Lp, data.X, yl, T, reg)
-        fm = O.lmnn_value_grad(Lm, data.X, yl, T, reg)
+        fp = value_grad(Lp, data.X, yl, T, reg)
+        fm = value_grad(Lm, data.X, yl, T, reg)
         if fp[3] != na or fm[3] != na:
           continue      # a hinge switched inside the stencil
         fd = (fp[0] - fm[0]) / (2 * h)
@@ -214,8 +233,8 @@ def check_lmnn(case, stats, data):
       raise Violation('C10/LMNN/components-not-last-accepted', 'components_ is not the iterate of the last accepted line')
   elif not bits_equal(Lf, calls[0][0][1]):
     raise Violation('C10/LMNN/zero-iterations', 'no accepted iterate but components_ != initial transformation')
-  fin = O.lmnn_value_grad(Lf, data.X, yl, T, reg)[0]
-  ini = O.lmnn_value_grad(calls[0][0][1], data.X, yl, T, reg)[0]
+  fin = value_grad(Lf, data.X, yl, T, reg)[0]
+  ini = value_grad(calls[0][0][1], data.X, yl, T, reg)[0]
   if fin > ini + 1e-9 * max(abs(ini), 1.0):
     raise Violation('C10/LMNN/descent', 'objective at components_ %r worse than at the initial transformation %r' % (fin, ini))
 
@@ -236,8 +255,11 @@ _B = {'quick': 60, 'thorough': 500}
 
 def shards(tier):
   reps = 5
-  return [dict(name='%s-%d' % (n, i), est=n) for n in NAMES for i in range(reps)]
+  return [dict(name='%s-%d' % (n, i), est=n) for n in NAMES for i in range(reps)] + \
+      [dict(name='LMNN-large', est='LMNN', large=True)]
 
 
 def run_shard(shard, tier, seed, stats, known_sigs):
+  if shard.get('large'):
+    return drive(check_c10, large_case(), {'quick': 4, 'thorough': 40}[tier], seed, stats, known_sigs, name='check_c10')
   return drive(check_c10, case_strategy(shard['est']), _B[tier], seed, stats, known_sigs, name='check_c10')
